@@ -62,20 +62,29 @@ class Deadlock(RuntimeError):
 
 
 class VirtualTimeLoop(asyncio.SelectorEventLoop):
-    """Event loop on a `VClock`: never blocks, jumps to the next deadline."""
+    """Event loop on a `VClock`: never blocks, jumps to the next deadline.
+
+    `time()` is measured from an epoch (`rebase()` sets it to the clock's current value; the checks rebase before every
+    top-level call), so that deadlines stay exact binary floats of a few seconds even when the virtual clock itself stands
+    beyond 2^32 seconds: with absolute float times a deadline computed as `time() + delay` can fall between two
+    representable clock readings and never be reached."""
 
     def __init__(self, clock: VClock | None = None):
         super().__init__()
         self.vclock = clock or VClock()
+        self.epoch_ms = 0
+
+    def rebase(self):
+        self.epoch_ms = self.vclock.ms
 
     def time(self):
-        return self.vclock.ms / 1000.0
+        return (self.vclock.ms - self.epoch_ms) / 1000.0
 
     def _run_once(self):
         if not self._ready:
             whens = [h._when for h in self._scheduled if not h._cancelled]
             if whens:
-                target = int(round(min(whens) * 1000))
+                target = self.epoch_ms + int(round(min(whens) * 1000))
                 if target > self.vclock.ms:
                     self.vclock.ms = target
             elif not self._stopping:
